@@ -36,6 +36,11 @@ def evaluate_encode(case):
                    labels)
     if isinstance(got, Raised):
         return bad("encode raised %r; reference strand %r" % (got, expected[:80]), labels)
+    if case["vt"] > 0 and isinstance(got, tuple) and len(got) == 2:
+        if got[1] != o.ref_vt(expected, case["vt"]):
+            return bad("check %r returned by encode is not the check %r of the reference strand"
+                       % (got[1], o.ref_vt(expected, case["vt"])), labels)
+        got = got[0]
     if got != expected:
         return bad("strand differs from the documented scheme: bits=%s got=%r reference=%r"
                    % (case["bits"][:64], str(got)[:80], expected[:80]), labels)
@@ -111,12 +116,13 @@ def evaluate_huge(case):
         return first
     graph = case["graph"]
     expected, _ = o.ref_encode([int(c) for c in case["bits"]], graph["rows"], graph["k"], graph["start"],
-                               gens.table_rows(case["table"]), False)
+                               gens.table_rows(case["table"]), case["fast"])
     got = coding.run_decode(case, expected)
     if isinstance(got, (Raised, str)) or "".join(str(int(x)) for x in got) != case["bits"]:
         return bad("decode of the reference strand of a %d-bit message failed: %r" % (len(case["bits"]),
                                                                                       str(got)[:120]))
-    return Outcome(True, True, list(first.classes) + ["message_value>10^4300"])
+    return Outcome(True, True, list(first.classes) + (["message_value>10^4300"] if len(case["bits"]) > 14000 else
+                                                    ["long_message"]))
 
 
 SUBCHECKS = [
@@ -129,6 +135,11 @@ SUBCHECKS = [
              shards=(1, 4), exhaustive_space="four fixed 14,300-bit messages (value beyond 10^4300, i.e. beyond "
                                              "CPython's int/str conversion limit), thorough tier only",
              rule=RULE, timeout=1800.0),
+    SubCheck("long_messages", evaluate_huge, enum=(lambda tier: 8 if tier == "quick" else 32,
+                                                   lambda i, tier: __import__("pbt.props.c01", fromlist=["x"]).long_case(i, tier)),
+             shards=(8, 16), exhaustive_space="the fixed family of 1,100..2,600-bit (thorough ..3,800) messages of C01's "
+                                              "long_messages, compared with the reference coder in both directions",
+             rule=RULE, timeout=600.0),
 ]
 
 TECHNIQUE = "property-based differential testing (Hypothesis) against an independent integer-arithmetic reference coder"
